@@ -388,6 +388,11 @@ fn gen_simple(rng: &mut Rng, o: &GenOpts<'_>, depth: usize) -> Simple {
             if rng.chance(1, 6) {
                 value = value.to_ascii_uppercase();
             }
+            if rng.chance(1, 6) || (matches!(op, AttrOp::Substring | AttrOp::Suffix) && rng.chance(1, 2)) {
+                // operands over a two-letter alphabet: occurrences in the document's stress values
+                // overlap with partial occurrences
+                value = crate::wl::overlap_string(rng, 1, 5, false);
+            }
             let mut name = rng.pick(o.attrs).to_string();
             if rng.chance(1, 6) {
                 name = name.to_ascii_uppercase();
